@@ -11,7 +11,7 @@ SAN = re.compile(r"(ERROR: AddressSanitizer|ERROR: LeakSanitizer|runtime error:|
 
 def setup(src):
     e2v.build_harness("h_dirwalk", src)
-    e2v.build_driver("dirwalk", ["theories/Parsers/DirWalk.vo", "theories/Parsers/EaValue.vo", "theories/Robust/Restart.vo", "theories/Robust/ItableLen.vo"], ["dirwalk_model"])
+    e2v.build_driver("dirwalk", ["theories/Parsers/DirWalk.vo", "theories/Parsers/EaValue.vo", "theories/Robust/Restart.vo", "theories/Robust/ItableLen.vo", "theories/Robust/MinGroups.vo"], ["dirwalk_model"])
     e2v.ensure_build("asan")
 
 
@@ -601,6 +601,29 @@ def robust_corr(src, mexe, seed, tier):
         for p_ in (img, out):
             if os.path.exists(p_):
                 os.unlink(p_)
+    # (c) resize2fs -P: the number of groups its estimate starts from (printed with -d 32), for free inode counts below, at and
+    # above the inode count, vs Robust.MinGroups.min_groups_new
+    for name in ("ext4_1k", "ext2_noflex"):
+        cfg = [c for c in corrupt.IMG_CONFIGS if c[0] == name][0]
+        base = corrupt.build_image(src, WORK, cfg[0], cfg[1], cfg[2], 1)
+        fs = Fs(base)
+        total, ipg_ = fs.inodes_count, fs.inodes_per_group
+        real_free = struct.unpack_from("<I", fs.d, fs.off + 1024 + 16)[0]
+        for free in [real_free, 0, 1, total - ipg_, total - ipg_ - 1, total - 1, total, total + 1, total + ipg_, 0x7FFFFFFF, 0xFFFFFFFF]:
+            d = bytearray(fs.d)
+            struct.pack_into("<I", d, fs.off + 1024 + 16, free & 0xFFFFFFFF)
+            corrupt.fix_sb_csum(fs, d)
+            img = os.path.join(WORK, "mg_%s.img" % name)
+            open(img, "wb").write(d)
+            rc, out_ = e2v.sh([os.path.join(src, "resize/resize2fs"), "-f", "-d", "32", "-P", img], env=env, timeout=60)
+            os.unlink(img)
+            m_ = re.search(r"fs has \d+ inodes, (\d+) groups required", out_)
+            seen = m_.group(1) if m_ else ("INCONSISTENT" if "appears inconsistent" in out_.split("fs requires")[0] else "?")
+            mo = ask("MG %d %d %d" % (total, free & 0xFFFFFFFF, ipg_))
+            rows += 1
+            if rc < 0 or rc > 1 or seen != mo:
+                bad.append({"what": "groups needed by the inodes in use (resize2fs -f -d 32 -P)", "base": name, "s_inodes_count": total, "s_free_inodes_count": free & 0xFFFFFFFF,
+                            "inodes_per_group": ipg_, "resize2fs_exit": rc, "printed": seen, "model": mo})
     return rows, bad
 
 
@@ -655,7 +678,7 @@ def run(res, replay=None):
     pr = e2v.coq_property("C06")
     res.add_proof(pr)
     hexe = e2v.build_harness("h_dirwalk", src)
-    mexe = e2v.build_driver("dirwalk", ["theories/Parsers/DirWalk.vo", "theories/Parsers/EaValue.vo", "theories/Robust/Restart.vo", "theories/Robust/ItableLen.vo"], ["dirwalk_model"])
+    mexe = e2v.build_driver("dirwalk", ["theories/Parsers/DirWalk.vo", "theories/Parsers/EaValue.vo", "theories/Robust/Restart.vo", "theories/Robust/ItableLen.vo", "theories/Robust/MinGroups.vo"], ["dirwalk_model"])
     res.cov["trusted_base"] = e2v.TRUSTED_COMMON + [
         "clang/gcc AddressSanitizer + UndefinedBehaviorSanitizer build of the working tree (asan variant): what they do not instrument is not observed",
         "a SIGKILL timeout of 60 s per invocation stands for 'hang'",
